@@ -4,11 +4,18 @@ C14 — Timeouts fire, only when due, and the clock cleans up.
 *Partial* property: the wall clock and the scheduler are assumptions.  What is proved is the logic of
 the clock state machine `RegexVerif.Clock` (Model/Clock.lean), a line-by-line model of fastclock.go,
 under the timing assumption that one iteration of runClock takes between `period` and `period + eps`
-(`eps` is a parameter) and that makeDeadline executes atomically.  The model is tied to the source by
-the regenerated facts `Generated.Clock` (constants and the statement skeleton of every function that
-is modelled) and to the running code by leg H.
+(`eps` is a parameter).  In `RegexVerif.Clock` a whole makeDeadline call is one event; the last section
+of this file ("makeDeadline in atomic steps") drops that: in `RegexVerif.ClockConc`
+(Model/ClockConc.lean) only the critical sections and the single lock-free atomic reads are atomic,
+calls of any number of goroutines interleave step by step with each other, with the updater and with
+StopTimeoutClock, and the bounds on early timeouts are proved again for every interleaving.  The same
+model executes the two earlier versions of makeDeadline, for which concrete interleavings yield a
+deadline that lies in the past (defects D37, D38).  The model is tied to the source by the regenerated
+facts `Generated.Clock` (constants and the statement skeleton of every function that is modelled) and
+to the running code by legs H and B.
 -/
 import RegexVerif.Lemmas.Clock
+import RegexVerif.Lemmas.ClockConc
 import RegexVerif.Generated.Clock
 
 set_option linter.unusedSimpArgs false
@@ -429,5 +436,244 @@ example : ∃ s, run pEx State.init (evsEx 4 ++ [.finish 0] ++ List.replicate 3 
 example : ∃ s, run pEx State.init [.idle 5000, .make 1000000000, .stop, .tick 400000000] = some s ∧
     s.running = false ∧ s.current = 381 ∧ reached s 1335 = false ∧ s.pending = [] :=
   ⟨_, rfl, by decide⟩
+
+/-! ### makeDeadline in atomic steps: every interleaving (`RegexVerif.ClockConc`)
+
+From here on a makeDeadline call is not one event.  A call is `begin d` followed by up to three
+steps of its goroutine - the atomic read of `clockEnd`, the atomic read of `current` (with the
+comparison of the locals), the locked section - and between any two of them other calls, wake-ups of
+the updater, idle time and StopTimeoutClock may come.  `Variant.new` is the code in /repo;
+`Variant.split` (648a49f) and `Variant.old` (before it) are the two earlier versions. -/
+
+/-- **No early timeout, whatever the interleaving.**  New variant; every state reachable by any
+    interleaving of any number of makeDeadline calls with the updater, idle periods and
+    StopTimeoutClock.  If a call that began at real time `t0` for MatchTimeout `d` has returned the
+    deadline `e`, and `e` is `reached()`, then the real time elapsed since `t0` is at least
+    `min(d+period, MaxInt64) - period - eps - 2097150 ns`; for `d ≤ MaxInt64 - period` that is
+    `d - eps - (2 ticks - 2 ns)` - the bound of `no_early_timeout`, unchanged.  Why it survives the
+    interleaving: a deadline returned without the mutex satisfies `current₂ + D ≤ clockEnd₁` (indices:
+    order of the two reads); had the clock been stopped at the first read, `clockEnd₁ < current₁ ≤
+    current₂` would contradict that (`D ≥ 0`), so an updater was running at the first read, which is
+    after `t0`, and `current` was at most `period + eps` old then and only grows.  A deadline computed
+    under the mutex reads a `current` that was just refreshed or belongs to a running updater, and it
+    is always recomputed there - nothing read before the mutex is kept. -/
+theorem conc_no_early_deadline (p : Params) (hp : p.Valid) (s : ClockConc.CState)
+    (h : ClockConc.Reachable .new p s) (g : ClockConc.G) (hg : g ∈ s.gs) (hpc : g.pc = .done)
+    (hr : reached s.clk g.e = true) :
+    effDur p.period g.d - p.period - p.eps - 2097150 ≤ s.clk.now - g.t0 ∧
+    (g.d ≤ maxInt64 - p.period → g.d - p.eps - 2097150 ≤ s.clk.now - g.t0) := by
+  have hi := Lemmas.ClockConc.inv_of_reachable p hp s h
+  have hd := hi.gs g hg
+  have hc := hi.clk
+  obtain ⟨hp0, hp1, he0, _, _⟩ := hp
+  obtain ⟨_, _, _, _, _, heff, _⟩ := dt_facts p.period g.d hp0 hp1 hd.d_nonneg hd.d_le
+  have hl := hc.lw_le
+  have ht := hd.t0_le
+  have hearly := hd.early hpc
+  simp only [reached, decide_eq_true_eq] at hr
+  cases hs : s.clk.started
+  · have hu := hc.unstarted hs
+    have h1 := hearly.2 hs
+    refine ⟨by omega, fun h2 => by have := heff h2; omega⟩
+  · have hcur := hc.cur_eq hs
+    have h1 := hearly.1 hs
+    refine ⟨by omega, fun h2 => by have := heff h2; omega⟩
+
+/-- **The clock covers the deadline, whatever the interleaving.**  New variant, every reachable
+    state: a returned deadline of a call during which StopTimeoutClock was not called (and none since)
+    is `≤ clockEnd`, and while it is not `reached()` an updater is running - so it will be reached. -/
+theorem conc_clock_covers_deadline (p : Params) (hp : p.Valid) (s : ClockConc.CState)
+    (h : ClockConc.Reachable .new p s) (g : ClockConc.G) (hg : g ∈ s.gs) (hpc : g.pc = .done)
+    (hstop : g.s0 = s.stops) :
+    g.e ≤ s.clk.clockEnd ∧ (reached s.clk g.e = false → s.clk.running = true) := by
+  have hd := (Lemmas.ClockConc.inv_of_reachable p hp s h).gs g hg
+  have hc := hd.covDone hstop hpc
+  refine ⟨hc.1, fun hr => ?_⟩
+  simp only [reached, decide_eq_false_iff_not] at hr
+  rcases hc.2 with h1 | h1
+  · exact h1
+  · exact absurd h1 hr
+
+/-- **The clock invariants survive the interleaving.**  New variant, every reachable state:
+    `current` never runs ahead of real time (`current_le_now`), a running clock is at most
+    `period + eps` old (`fresh_when_running`), and a clock that is not running has passed its
+    `clockEnd` - so a lock-free `end <= clockEnd` can only succeed against a running clock. -/
+theorem conc_clock_invariants (p : Params) (hp : p.Valid) (s : ClockConc.CState)
+    (h : ClockConc.Reachable .new p s) :
+    (s.clk.started = true → 0 ≤ s.clk.current ∧ s.clk.current ≤ ticks (s.clk.now - s.clk.startNs)) ∧
+    (s.clk.started = false → s.clk.current = 0 ∧ s.clk.clockEnd = 0 ∧ s.clk.running = false) ∧
+    (s.clk.running = true →
+      ∃ w, s.clk.current = ticks (w - s.clk.startNs) ∧ w ≤ s.clk.now ∧ s.clk.now - w ≤ p.period + p.eps) ∧
+    (s.clk.started = true → s.clk.running = false → s.clk.clockEnd < s.clk.current) := by
+  have hc := (Lemmas.ClockConc.inv_of_reachable p hp s h).clk
+  have hl := hc.lw_le
+  refine ⟨fun hs => ?_, hc.unstarted, fun hr => ?_, hc.stopped⟩
+  · have := hc.cur_eq hs
+    rw [ticks_eq]; omega
+  · have hpr := hc.progress hr
+    refine ⟨s.clk.lastWrite, ?_, hl, by omega⟩
+    rw [ticks_eq]; exact (hc.cur_eq hpr.1).1
+
+/-- **The small-step model refines the atomic one.**  Every variant, every state (reachable or
+    not): a call whose steps are executed with nothing in between - `begin d`, then `k ≤ 4` steps of
+    the new goroutine - ends with exactly the clock state and the deadline of `Clock.makeDeadline`,
+    the atomic event the theorems of the first part speak about.  (The variants differ only under
+    interleaving.) -/
+theorem conc_sequential_eq (v : ClockConc.Variant) (p : Params) (s : ClockConc.CState) (d : Int)
+    (hd0 : 0 ≤ d) (hd1 : d ≤ maxInt64) :
+    ∃ k, k ≤ 4 ∧ ClockConc.run v p s (ClockConc.soloEvents s d k) =
+      some { clk := (makeDeadline p s.clk d).1,
+             gs := s.gs ++ [{ t0 := s.clk.now, d := d, pc := .done, ce := s.clk.clockEnd,
+                              e := (makeDeadline p s.clk d).2, s0 := s.stops }],
+             stops := s.stops } := by
+  obtain ⟨k, hk, hit⟩ := Lemmas.ClockConc.iterG_makeDeadline v p s.clk (ClockConc.newG s d) rfl
+  exact ⟨k, hk, Lemmas.ClockConc.run_solo v p s d ⟨hd0, hd1⟩ k _ hit⟩
+
+/-! #### concrete interleavings (period 1 ms, eps 1 ms)
+
+`warmEvs`: a first timed call (100 ms) runs alone and starts the clock at t = 0; its runner returns;
+StopTimeoutClock; the updater wakes twice (at 1 ms `current = 0 <= clockEnd = 0` still holds, at 2 ms
+it leaves the loop with `current = 1`); 130 ms pass.  Now `current = 1` is 130 ms old, longer than the
+timeout of the calls that follow. -/
+
+def pConc : Params := { period := 1000000, eps := 1000000, slop := goSlop }
+
+example : pConc.Valid := by unfold Params.Valid pConc goSlop maxInt64; decide
+
+def warmEvs (solo : Nat) : List ClockConc.Event :=
+  [.begin 100000000] ++ List.replicate solo (.stepG 0) ++ [.retire 0, .stop, .tick 1000000, .tick 1000000, .idle 130000000]
+
+/-- goroutines A (index 0) and B (index 1), both MatchTimeout 100 ms, at t = 132 ms: B does its two
+    lock-free reads, A runs its whole call, B does the rest of its own.  `solo` = number of steps of a
+    call that takes the mutex: 4 in the variants with two critical sections, 3 in the new one. -/
+def raceLockEvs (solo : Nat) : List ClockConc.Event :=
+  warmEvs solo ++ [.begin 100000000, .begin 100000000, .stepG 1, .stepG 1] ++ List.replicate solo (.stepG 0) ++
+    List.replicate (solo - 2) (.stepG 1)
+
+/-- A has MatchTimeout 1 h; B does its first read, A runs its whole call, B does its second read. -/
+def raceFastEvs (solo : Nat) : List ClockConc.Event :=
+  warmEvs solo ++ [.begin 3600000000000, .begin 100000000, .stepG 1] ++ List.replicate solo (.stepG 0) ++ [.stepG 1]
+
+/-- the stopped, stale clock all three races start from -/
+example : ∃ s, ClockConc.run .old pConc ClockConc.CState.init (warmEvs 4) = some s ∧
+    s.clk.running = false ∧ s.clk.started = true ∧ s.clk.current = 1 ∧ s.clk.clockEnd = 0 ∧
+    s.clk.now = 132000000 ∧ s.gs = [] :=
+  ⟨_, rfl, by decide⟩
+
+/-- **Defect D37, the path through the mutex** (code before 648a49f).  B computes `end_B = 1 + 96`
+    from the stale `current` and sees `end_B > clockEnd`; A runs completely (refreshes `current` to 125
+    ticks = 132 ms under the mutex, restarts the updater); B takes the mutex, finds `running` true, does
+    not recompute, and returns 97: a deadline that was reached 30 ms before the call began.  The
+    state is reachable, B's runner sees `reached()` at its first check, 0 ns after the call. -/
+theorem old_makeDeadline_stale_deadline :
+    ∃ s, ClockConc.run .old pConc ClockConc.CState.init (raceLockEvs 4) = some s ∧
+      ClockConc.Reachable .old pConc s ∧
+      s.gs[1]? = some { t0 := 132000000, d := 100000000, pc := .done, ce := 0, e := 97, s0 := 1 } ∧
+      reached s.clk 97 = true ∧ s.clk.current = 125 ∧ s.clk.now - 132000000 = 0 ∧
+      ¬ (100000000 - pConc.eps - 2097150 ≤ s.clk.now - 132000000) :=
+  ⟨_, rfl, Lemmas.ClockConc.reachable_of_run .old pConc (raceLockEvs 4) _ _ .init rfl, by decide⟩
+
+/-- **Defect D37, the lock-free path** (code before 648a49f).  B reads the stale `current`
+    (`end_B = 97`); A, with MatchTimeout 1 h, runs completely (`clockEnd` = 1 h + 1 s ahead); B reads
+    that `clockEnd`, finds `end_B <= clockEnd` and returns 97 without ever taking the mutex. -/
+theorem old_makeDeadline_stale_fastpath :
+    ∃ s, ClockConc.run .old pConc ClockConc.CState.init (raceFastEvs 4) = some s ∧
+      ClockConc.Reachable .old pConc s ∧
+      s.gs[1]? = some { t0 := 132000000, d := 100000000, pc := .done, ce := 3434306, e := 97, s0 := 1 } ∧
+      reached s.clk 97 = true ∧ s.clk.current = 125 ∧ s.clk.now - 132000000 = 0 :=
+  ⟨_, rfl, Lemmas.ClockConc.reachable_of_run .old pConc (raceFastEvs 4) _ _ .init rfl, by decide⟩
+
+/-- the same schedules on the new code (a whole call is three steps there): B's deadline is computed
+    from the refreshed time, 221 = 125 + 96, and is not reached; in the second schedule B's second
+    read sees `current = 125`, `221 > clockEnd₁ = 0` sends it to the mutex, two more steps finish it -/
+example : ∃ s, ClockConc.run .new pConc ClockConc.CState.init (raceLockEvs 3) = some s ∧
+    s.gs[1]? = some { t0 := 132000000, d := 100000000, pc := .done, ce := 0, e := 221, s0 := 1 } ∧
+    reached s.clk 221 = false :=
+  ⟨_, rfl, by decide⟩
+example : ∃ s, ClockConc.run .new pConc ClockConc.CState.init (raceFastEvs 3) = some s ∧
+    s.gs[1]? = some { t0 := 132000000, d := 100000000, pc := .needLock, ce := 0, e := 221, s0 := 1 } :=
+  ⟨_, rfl, by decide⟩
+example : ∃ s, ClockConc.run .new pConc ClockConc.CState.init (raceFastEvs 3 ++ [.stepG 1]) = some s ∧
+    s.gs[1]? = some { t0 := 132000000, d := 100000000, pc := .done, ce := 0, e := 221, s0 := 1 } ∧
+    reached s.clk 221 = false ∧ s.clk.clockEnd = 3434306 :=
+  ⟨_, rfl, by decide⟩
+/-- … and so does 648a49f on these two schedules (four steps per call) -/
+example : ∃ s, ClockConc.run .split pConc ClockConc.CState.init (raceLockEvs 4) = some s ∧
+    s.gs[1]? = some { t0 := 132000000, d := 100000000, pc := .done, ce := 0, e := 221, s0 := 1 } :=
+  ⟨_, rfl, by decide⟩
+
+/-- A (index 0, 100 ms) at t = 132 ms: both reads and the first locked section (refresh: `current` =
+    125); A is descheduled for 50 ms; A's extendClock restarts the updater at t = 182 ms; C (index 1,
+    100 ms) begins at t = 182 ms and does its two reads; then the updater ticks 50 times. -/
+def splitEvs : List ClockConc.Event :=
+  warmEvs 4 ++ [.begin 100000000, .stepG 0, .stepG 0, .stepG 0, .idle 50000000, .stepG 0,
+    .begin 100000000, .stepG 1, .stepG 1] ++ List.replicate 50 (.tick 1000000)
+
+/-- **Defect D38: two critical sections** (/repo at 648a49f).  The locked block of makeDeadline
+    refreshed `current` and released the mutex; `extendClock` took it again.  If the goroutine is
+    descheduled between the two (50 ms here; no updater is alive, so nothing bounds the delay), the
+    clock it then starts is `running` with a `current` that is 50 ms old and stays so until the first
+    wake-up.  C, which begins right after, reads `clockEnd` (covers) and `current` (stale) and returns
+    `221 = 125 + 96` lock-free (through the mutex it would get the same: `running` is true, no
+    refresh).  Its deadline is reached 50 ms after the call began, with MatchTimeout 100 ms: earlier
+    than `d - eps - 2 ticks` by 47 ms - the bound of `conc_no_early_deadline` fails for this variant,
+    and `fresh_when_running` fails in the state after A's extendClock. -/
+theorem split_sections_stale_after_restart :
+    ∃ s, ClockConc.run .split pConc ClockConc.CState.init splitEvs = some s ∧
+      ClockConc.Reachable .split pConc s ∧
+      s.gs[1]? = some { t0 := 182000000, d := 100000000, pc := .done, ce := 1174, e := 221, s0 := 1 } ∧
+      reached s.clk 221 = true ∧ s.clk.now - 182000000 = 50000000 ∧
+      ¬ (100000000 - pConc.eps - 2097150 ≤ s.clk.now - 182000000) :=
+  ⟨_, rfl, Lemmas.ClockConc.reachable_of_run .split pConc splitEvs _ _ .init rfl, by decide⟩
+
+/-- the state right after A's late extendClock: running, and `current` (125 ticks = 131.07 ms) is
+    older than `period + eps` - `conc_clock_invariants` does not hold for the split variant -/
+example : ∃ s, ClockConc.run .split pConc ClockConc.CState.init (splitEvs.take 16) = some s ∧
+    s.clk.running = true ∧ s.clk.current = 125 ∧ s.clk.now = 182000000 ∧
+    ¬ (s.clk.now - (s.clk.startNs + 1048576 * (s.clk.current + 1)) ≤ pConc.period + pConc.eps) :=
+  ⟨_, rfl, by decide⟩
+
+/-- in the new code the schedule does not exist: after A's single locked section (third step) an
+    updater is alive, so 50 ms cannot pass without its wake-ups … -/
+example : ClockConc.run .new pConc ClockConc.CState.init
+    (warmEvs 3 ++ [.begin 100000000, .stepG 0, .stepG 0, .stepG 0, .idle 50000000]) = none := rfl
+/-- … and with them C's deadline is computed from a time at most one period old: 269 = 173 + 96, which
+    is reached 101 ms after C began -/
+example : ∃ s, ClockConc.run .new pConc ClockConc.CState.init
+    (warmEvs 3 ++ [.begin 100000000, .stepG 0, .stepG 0, .stepG 0] ++ List.replicate 50 (.tick 1000000) ++
+      [.begin 100000000, .stepG 1, .stepG 1] ++ List.replicate 101 (.tick 1000000)) = some s ∧
+    s.gs[1]? = some { t0 := 182000000, d := 100000000, pc := .done, ce := 1174, e := 269, s0 := 1 } ∧
+    reached s.clk 269 = true ∧ s.clk.now - 182000000 = 101000000 :=
+  ⟨_, rfl, by decide⟩
+
+/-- non-vacuity of `conc_no_early_deadline` / `conc_clock_covers_deadline`: a state reachable in the
+    new variant with two finished calls - the first through the mutex (first use of the clock), the
+    second, begun 3 ms later, lock-free - after 101 wake-ups: the first deadline (96) is reached 101 ms
+    after its call began, not before the bound `100 ms - 1 ms - 2.1 ms`; the second (98) is not reached,
+    is `≤ clockEnd`, and the updater is running. -/
+def twoCallsEvs : List ClockConc.Event :=
+  [.begin 100000000, .stepG 0, .stepG 0, .stepG 0, .tick 1000000, .tick 1000000, .tick 1000000,
+    .begin 100000000, .stepG 1, .stepG 1] ++ List.replicate 98 (.tick 1000000)
+
+example : ∃ s, ClockConc.run .new pConc ClockConc.CState.init twoCallsEvs = some s ∧
+    ClockConc.Reachable .new pConc s ∧
+    s.gs = [{ t0 := 0, d := 100000000, pc := .done, ce := 0, e := 96, s0 := 0 },
+            { t0 := 3000000, d := 100000000, pc := .done, ce := 1049, e := 98, s0 := 0 }] ∧
+    reached s.clk 96 = true ∧ 100000000 - pConc.eps - 2097150 ≤ s.clk.now - 0 ∧ s.clk.now = 101000000 ∧
+    reached s.clk 98 = false ∧ 98 ≤ s.clk.clockEnd ∧ s.clk.running = true ∧ s.stops = 0 :=
+  ⟨_, rfl, Lemmas.ClockConc.reachable_of_run .new pConc twoCallsEvs _ _ .init rfl, by decide⟩
+
+/-- `conc_sequential_eq` instantiated: a call alone on the stale stopped clock, each variant -/
+example : ∀ v ∈ [ClockConc.Variant.old, .split, .new], ∃ s k s', k ≤ 4 ∧
+    ClockConc.run .new pConc ClockConc.CState.init (warmEvs 3) = some s ∧
+    ClockConc.run v pConc s (ClockConc.soloEvents s 100000000 k) = some s' ∧
+    s'.clk.current = 125 ∧ s'.gs = [{ t0 := 132000000, d := 100000000, pc := .done, ce := 0, e := 221, s0 := 1 }] ∧
+    (makeDeadline pConc s.clk 100000000).2 = 221 := by
+  intro v hv
+  simp only [List.mem_cons, List.mem_nil_iff, or_false] at hv
+  rcases hv with rfl | rfl | rfl
+  · exact ⟨_, 4, _, by decide, rfl, rfl, by decide⟩
+  · exact ⟨_, 4, _, by decide, rfl, rfl, by decide⟩
+  · exact ⟨_, 3, _, by decide, rfl, rfl, by decide⟩
 
 end RegexVerif.Props.C14
